@@ -517,7 +517,7 @@ type c17Dnn struct {
 var dnnAlphabet = []byte("abcdefghijklmnopqrstuvwxyzABCDEFGHIJKLMNOPQRSTUVWXYZ0123456789-")
 
 func genC17Dnn(t *rapid.T) c17Dnn {
-	switch rapid.IntRange(0, 3).Draw(t, "kind") {
+	switch rapid.IntRange(0, 4).Draw(t, "kind") {
 	case 0:
 		return c17Dnn{DNN: []byte("internet")}
 	case 1: // several labels
@@ -529,6 +529,12 @@ func genC17Dnn(t *rapid.T) c17Dnn {
 		return c17Dnn{DNN: []byte(strings.Join(parts, "."))}
 	case 2: // arbitrary octets 1..100
 		return c17Dnn{DNN: drawBytes(t, rapid.IntRange(1, 100).Draw(t, "n"), "raw")}
+	case 3: // network identifier followed by an operator identifier (TS 23.003 9.1.2): a valid DNN like any other
+		ni := string(rapid.SliceOfN(rapid.SampledFrom(dnnAlphabet), 1, 20).Draw(t, "ni"))
+		if rapid.Bool().Draw(t, "ni2") {
+			ni += "." + string(rapid.SliceOfN(rapid.SampledFrom(dnnAlphabet), 1, 10).Draw(t, "ni_l2"))
+		}
+		return c17Dnn{DNN: []byte(fmt.Sprintf("%s.mnc%03d.mcc%03d.gprs", ni, rapid.IntRange(0, 999).Draw(t, "oi_mnc"), rapid.IntRange(0, 999).Draw(t, "oi_mcc")))}
 	}
 	return c17Dnn{DNN: rapid.SliceOfN(rapid.SampledFrom(dnnAlphabet), 1, 63).Draw(t, "label")}
 }
